@@ -173,6 +173,9 @@ def const_str(c):
     return c.get("s", "?")
 
 
+NORMALISER = [None]   # set by the running simulator: alias type (`<T as Tr>::Assoc` with concrete T) -> the impl's type, or None
+
+
 def subst(t, gargs):
     """Substitute generic params (by index) in type/generic-arg JSON t with gargs (list of generic-arg JSON)."""
     if not gargs or t is None:
@@ -210,6 +213,10 @@ def subst(t, gargs):
     if k == "alias":
         r = dict(t)
         r["args"] = [subst(a, gargs) for a in t["args"]]
+        if NORMALISER[0] is not None:
+            n = NORMALISER[0](r)
+            if n is not None:
+                return n
         return r
     if k == "dyn":
         r = dict(t)
